@@ -80,7 +80,7 @@ def run(ctx):
         return
     if drv is None:
         return
-    n = 140 if ctx.quick else 3000
+    n = 120 if ctx.quick else 3000
     if ctx.broken:
         n *= 4
     seed0 = ctx.seed * 1000003
@@ -104,7 +104,14 @@ def run(ctx):
              # weak-memory pass (oracle + HB race monitor only: stale loads are not SC-replayable)
              ("fixed", seed0 + 3 * n, m, {"VRT_MEM": "view"}), ("set", seed0 + 3 * n, m, {"VRT_MEM": "view"})]
     base_bad = len(ctx.failing) + len(ctx.broken)   # proof / translator breakage found before the runs
+    # batches of <= 64 runs so that a broken tree stops early instead of grinding through step limits
+    batches = []
     for mode, s0, cnt, env in plan:
+        k = 0
+        while k < cnt:
+            batches.append((mode, s0 + k, min(64, cnt - k), env))
+            k += 64
+    for mode, s0, cnt, env in batches:
         lockstep = env.get("VRT_MEM") != "view"
         runs = ctx.econc(exe, drv if lockstep else None, [mode], s0, cnt, env=dict(env, VRT_STEP_LIMIT="250000"))
         tag = mode + ("/" + ",".join("%s=%s" % kv for kv in sorted(env.items())) if env else "")
